@@ -1,4 +1,2409 @@
 package main
 
-// genEnumFac: placeholder until the translation of this part of the library is written (an empty generated file).
-func genEnumFac() string { return "" }
+// Translation of the enum factory of internal/ecolumn/column.go and of the record assembly of the serializers of
+// qframe.go into Gallina (coq/Gen/GenEnumFac.v, tie T1 for the enum columns, QFrame.ToJSON and QFrame.ToCSV).
+//
+// Three groups, one generated file:
+//   1 internal/ecolumn/column.go: the struct types Column and Factory become records, the functions listed in
+//     gefSpecs (NewFactory, the appends, enumVal, ToColumn, New, NewConst, Len, StringAt, equalTypes, Equals) are
+//     translated statement by statement into definitions gef_<Receiver>_<name>;
+//   2 Column.AppendByteStringAt (gekSpecs) inside Section GenEnumRender, whose one variable is
+//     qfstrings.AppendQuotedString (translated on its own by strser.go);
+//   3 qframe.go: QFrame.ToJSON, QFrame.Len, QFrame.ToCSV (gejSpecs) inside Section GenSerializers with the struct
+//     QFrame as a record.  THE ABSTRACTION BOUNDARY of this group are the section variables: C = namedColumn (its
+//     declaration is text-matched) seen only through col.name, col.AppendByteStringAt(buf, i), col.StringAt(i, na)
+//     (a column.Column of this group is the namedColumn it was taken from); qfstrings.QuotedBytes; the io.Writer as
+//     a state W with writer.Write : W -> bytes -> n * error * W (io.Writer contract: Write does not retain or
+//     modify the slice); csv.NewToConfig(confFuncs) : F -> gef_ToConfig (Header; Columns, nil = None);
+//     encoding/csv's Writer as a state K with NewWriter / Write / Flush / Error and the writer underneath it.
+//     A function with an io.Writer argument answers the final state of that writer after its results.
+// coq/Proofs/GenEnumFacProofs.v proves every generated definition equal to the hand-written model (Model/Ops.v:
+// enum_new / enum_step / find_value_last / nodup_bytes / enum_new_const / col_equals, Model/Frame.v cell_at,
+// Model/Filter.v equal_types, Model/Json.v to_json_writes, Model/JsonRead.v frame_to_json, Model/CsvWrite.v
+// to_csv_records), so that an edit of these Go functions changes the generated text and breaks a named theorem
+// T1_enum_<name> / T1_json_<name> / T1_csv_<name> of coq/Properties/T1Enum.v, while the theorems of C17 / C14 / C13
+// keep talking about the model.
+//
+// THE SCHEME (anything that does not fit is reported through problem(...); the block then keeps the text of the
+// golden copy, marked FALLBACK, so that the development still builds — the exit status says the tie is broken).
+//
+//	integers    Go int -> Z, exact (lengths, positions, counters; overflow of int is outside the translation as it
+//	            is outside the model).  enumVal (uint8) and uint32 are Z inside the range of the type: the
+//	            conversion enumVal(e) is the wrap gef_u8 e = e mod 256, an untyped constant is range-checked.
+//	            Package constants (maxCardinality, nullValue) are folded to their value.  x > y is (y <? x).
+//	strings     string and []byte -> bytes (list N); string(b) is the identity; a literal is its byte list;
+//	            == / != are bytes_eqb.
+//	slices      []T -> list T; nil and the empty slice are both [].  make([]T, 0, c) -> gef_make0 c (Panic for a
+//	            negative c; the capacity is not kept), make([]T, 0) -> [], s[i] -> gef_index s i (Panic outside the
+//	            range), len(s) -> Z.of_nat (length s).  append is accepted only as  X = append(X, e)  on one and the
+//	            same place X (-> X ++ [e]): the result replaces the only access path the translated code has to the
+//	            slice, so the value reading is exact — with ONE EXCEPTION that the translation does not see and
+//	            that is a defect of the Go code: f.column.values starts as the slice the CALLER of NewFactory passed;
+//	            when that slice is empty but has spare capacity (e.g. vals[:0]) the enum is not strict and
+//	            newEnumVal appends INTO THE CALLER'S ARRAY, so two columns built from the same such slice share and
+//	            overwrite each other's value tables (New({A: [x y x], B: [p q p]}, Enums{A: v, B: v}) with
+//	            v := backing[:0] reads A back as p q p).  The value semantics here is that of a declaration slice
+//	            without spare capacity (nil, a literal, a full slice).
+//	maps        map[string]V -> gef_map V = association list (key, value), keys unique, insertion order (not
+//	            observable: the translated code never ranges over a map).  make(map[..]..., n) -> [] (the size
+//	            hint is not observable), m[k] = v -> gef_map_set m k v (replaces the binding or appends one),
+//	            v, ok := m[k] -> gef_map_get2 zero m k : V * bool.
+//	records     struct -> Record gef_<T> with one projection gef_<T>_<field> and one setter gef_<T>_set_<field> per
+//	            field, generated from the type declarations; T{f: e} is the constructor with the missing fields zero.
+//	            x.f.g = e is the nested setter.
+//	pointers    *T for a struct T as a RECEIVER is the T value itself, threaded through: a method that stores into
+//	            its receiver (directly or through such a method) answers its results and last the new receiver; one
+//	            that never does is passed the value only.  A local variable of type *T (the result of NewFactory) is
+//	            option T (nil = None); x.m(..) dereferences it (Panic for nil) and stores the new value back.  Sound
+//	            because the pointer is never copied: such a variable may only be a receiver, be compared with nil,
+//	            be dereferenced by a field selection or be returned.  &T{..} -> Some (..).  *string -> option bytes,
+//	            *p -> gef_deref p (Panic for nil).
+//	errors      error -> gef_error = option (bytes * bytes) (nil = None); qerrors.New(op, format, args..) ->
+//	            Some (op, format) with the two string literals as byte strings (the arguments are evaluated —
+//	            a nil dereference among them stays a Panic — and dropped: they only fill in the text).
+//	interface   column.Column -> gef_anycolumn = gef_col_enum c | gef_col_other (a tagged union: the enum column or
+//	            any other implementation); v, ok := x.(Column) -> gef_as_Column x : gef_Column * bool.
+//	vocabulary  v.isNull() on an enumVal -> gf_ecolumn_enumVal_isNull v (its translation in Gen/GenFuncs.v).
+//	results     every function answers outcome T (Panic = Go panic), T the tuple of its results (unit for none)
+//	            followed by the new receiver for a method that stores into its receiver.  There is NO fuel: every
+//	            loop is a range loop over a slice evaluated once, or a counting loop  for i := a; i < b; i++  whose
+//	            body stores neither into i nor into the variables of b (-> a loop over gef_count a b).
+//	statements  x := e; a, b := f(..); v, ok := m[k]; v, ok := x.(T); x = e; x.f.g = e; m[k] = e; x++; x.m(..)
+//	calls       a call of a translated function is  do t <- gef_f ..;  a call of a method that stores into its
+//	            receiver may only stand as a statement, as the only right-hand side of an assignment / if-init or
+//	            as the only returned value.
+//	conditions  a && b, a || b: when b can panic the whole condition is bound first
+//	            (do t <- (if a then (..; Ok b) else Ok false)), otherwise andb / orb (b is total).
+//	if          with or without init statement (the init is a statement in front, scoped to the if).  When nothing
+//	            inside leaves the statement (no return / continue): do (assigned outer variables) <- (if c then ..;
+//	            Ok (..) else ..; Ok (..)); rest.  Otherwise the rest of the block is continued inside the branches
+//	            that fall through.
+//	range       for i, v := range X { body }: Definition gef_f_loopN := fix loop (l : list T) [(v_i : Z)]
+//	            (variables it mentions) {struct l}, numbered in order of completion; [] => EXIT, v :: l' => body;
+//	            loop l' [(v_i + 1)] (current values); continue = the next trip.  A loop without return answers the
+//	            outer variables it assigns (EXIT = Ok (those)).  A loop with a return inside (only at the top level
+//	            of a function) also contains the statements that follow it (EXIT = the rest of the function).  When
+//	            the value variable is used the body must not store into X.
+//	bytes       byte -> N; a character literal or byte(c) is its code; []byte{c, ..} is the list; b[i] -> gef_index;
+//	            s[:0] -> []; s[:n] -> gef_prefix s n (Panic for n < 0 or n > len(s): a reslice beyond the length but
+//	            inside the capacity is outside the translation — it would read stale bytes); make([]T, n) ->
+//	            gef_make zero n; s[i] = v -> gef_update (Panic outside the range); return append(X, e) / append(X,
+//	            e...) hands X ++ .. to the caller.  A buffer that is cut back with s[:0] and appended to again
+//	            (jsonBuf, row) reuses its array: exact under the io.Writer / csv.Writer contract above.
+//	nil slices  a struct FIELD that the code compares with nil (conf.Columns) is option (list T); everywhere else it is
+//	            read through gef_nslice (None = []).  if X == nil { X = make([]T, 0) } on a slice VARIABLE is the
+//	            identity (nil and the empty slice are the same list) and is only commented.
+//	m[k] value  the one-value form of a map index is gef_map_get1 zero m k (the zero value for a missing key).
+//	var         var x T -> let v_x := (zero : T).
+//	for bound   the bound b of a counting loop may call len or a translated method without arguments on a variable
+//	            the body does not store into (qf.Len()): it is evaluated once in front of the loop.
+//	errors 2    qerrors.Propagate(op, err) -> gef_propagate op err (some error; only nil-ness is observable here);
+//	            the format of qerrors.New may be fmt.Sprintf(format, args..): the format literal is kept.
+//	rejected    for with any other header, break, goto, labels, switch, defer, closures, range over a map, stores
+//	            through pointers other than receivers, copies of struct pointers, shadowing of an outer variable that
+//	            is stored into, everything else.
+
+import (
+	"bytes"
+	"flag"
+	"fmt"
+	"go/ast"
+	"go/printer"
+	"go/token"
+	"os"
+	"path/filepath"
+	"regexp"
+	"strconv"
+	"strings"
+)
+
+const gefPkg = "internal/ecolumn"
+
+// in dependency order (a callee before its callers)
+var gefSpecs = []string{"NewFactory", "Factory.AppendEnum", "Factory.AppendNil", "Factory.newEnumVal",
+	"Factory.appendString", "Factory.AppendString", "Factory.AppendByteString", "Factory.enumVal", "Factory.ToColumn",
+	"New", "NewConst", "Column.Len", "Column.StringAt", "equalTypes", "Column.Equals"}
+
+// the structs that become records, in dependency order
+var gefStructs = []string{"Column", "Factory"}
+
+// the rendering of an enum cell for ToJSON, inside a section of its own
+var gekSpecs = []string{"Column.AppendByteStringAt"}
+
+const gekPreamble = `Section GenEnumRender.
+Variable append_quoted_string : bytes -> bytes -> outcome bytes.         (* qfstrings.AppendQuotedString(buf, s) *)
+
+`
+
+// the second group: the record assembly of the serializers (package qframe, qframe.go), inside a section whose
+// variables are the abstraction boundary of that group
+const gejPkg = "."
+
+var gejStructs = []string{"QFrame"}
+var gejSpecs = []string{"QFrame.ToJSON", "QFrame.Len", "QFrame.ToCSV"}
+
+// the text the fixed vocabulary of the second group stands for
+const gejNamedColumn = "struct {\n\tcolumn.Column\n\tname\tstring\n\tpos\tint\n}"
+
+const gejPreamble = `(* ------------------------------------------------------------------ qframe.go: the serializers' assembly
+   C = namedColumn (abstract: its name, its renderings), W = the state of the io.Writer.  The variables are the
+   abstraction boundary: the per-type renderings of a cell, the quoting of a column name, the writer. *)
+Section GenSerializers.
+Context {C W F K : Type}.
+Variable col_zero : C.                                                  (* the zero namedColumn *)
+Variable col_name : C -> bytes.                                         (* col.name *)
+Variable col_AppendByteStringAt : C -> bytes -> Z -> outcome bytes.     (* col.AppendByteStringAt(buf, i) *)
+Variable col_StringAt : C -> Z -> bytes -> outcome bytes.               (* col.StringAt(i, naRep) *)
+Variable quoted_bytes : bytes -> outcome bytes.                         (* qfstrings.QuotedBytes(s) *)
+Variable writer_Write : W -> bytes -> Z * gef_error * W.                (* writer.Write(p): n, err, next state *)
+Variable new_to_config : F -> gef_ToConfig.                             (* csv.NewToConfig(confFuncs) *)
+Variable csv_NewWriter : W -> K.                                        (* encoding/csv NewWriter(writer) *)
+Variable csvw_Write : K -> list bytes -> gef_error * K.                 (* w.Write(record): err, next state *)
+Variable csvw_Flush : K -> K.                                           (* w.Flush() *)
+Variable csvw_Error : K -> gef_error.                                   (* w.Error() *)
+Variable csvw_underlying : K -> W.                                      (* the writer underneath the csv.Writer *)
+
+`
+
+const gefPreamble1 = `(* GENERATED by tools/qf2coq (enumfac.go) from internal/ecolumn/column.go (the enum factory and column) and
+   qframe.go (QFrame.ToJSON, QFrame.Len, QFrame.ToCSV) of tobgu/qframe — do not edit.
+   One Record per struct, one definition gef_<Receiver>_<function> per translated Go function, one Definition
+   .._loopN (a fix over the ranged list) per loop; the scheme is described at the top of tools/qf2coq/enumfac.go.
+   Integers (int, enumVal, uint32) are Z, strings are bytes, a map is an association list with unique keys, an
+   error is option (operation, format), *T is option T except for receivers, which are threaded through (a method
+   that stores into its receiver answers the new receiver last), column.Column is the tagged union gef_anycolumn.
+   Every function answers outcome T (Panic = Go panic); there is no fuel.  The serializers live in Section
+   GenSerializers, whose variables are their abstraction boundary (the column level, the io.Writer, encoding/csv);
+   a function with an io.Writer argument answers the final state of that writer last. *)
+From QF Require Import Base.Prelude Gen.GenFuncs.
+Local Open Scope Z_scope.
+
+(* error values: nil or qerrors.New(operation, format, ...) *)
+Definition gef_error : Type := option (bytes * bytes).
+(* enumVal(e) *)
+Definition gef_u8 (x : Z) : Z := x mod 256.
+(* x == nil for an error or a pointer, *p *)
+Definition gef_isnil {T : Type} (p : option T) : bool := match p with None => true | Some _ => false end.
+Definition gef_deref {T : Type} (p : option T) : outcome T := match p with Some x => Ok x | None => Panic end.
+(* make([]T, 0, c), s[i], for i := a; i < b; i++ *)
+Definition gef_make0 {T : Type} (c : Z) : outcome (list T) := if c <? 0 then Panic else Ok [].
+Definition gef_index {T : Type} (s : list T) (i : Z) : outcome T :=
+  if i <? 0 then Panic else idx s (Z.to_nat i).
+Definition gef_count (a b : Z) : list unit := repeat tt (Z.to_nat (b - a)).
+(* make([]T, n), s[i] = v, s[:n] for n <= len(s) (a longer reslice inside the capacity is outside the translation) *)
+Definition gef_make {T : Type} (zero : T) (n : Z) : outcome (list T) :=
+  if n <? 0 then Panic else Ok (repeat zero (Z.to_nat n)).
+Definition gef_update {T : Type} (s : list T) (i : Z) (v : T) : outcome (list T) :=
+  if i <? 0 then Panic else do _ <- idx s (Z.to_nat i); Ok (set_nth s (Z.to_nat i) v).
+Definition gef_prefix {T : Type} (s : list T) (n : Z) : outcome (list T) :=
+  if (n <? 0) || (Z.of_nat (length s) <? n) then Panic else Ok (firstn (Z.to_nat n) s).
+(* m[k] as a value: the zero value for a missing key *)
+Definition gef_map_get1 {V : Type} (zero : V) (m : list (bytes * V)) (k : bytes) : V :=
+  (fix get (m : list (bytes * V)) : V :=
+     match m with [] => zero | (k', v) :: r => if bytes_eqb k' k then v else get r end) m.
+(* a slice field that is compared with nil: None = nil *)
+Definition gef_nslice {T : Type} (s : option (list T)) : list T := match s with Some l => l | None => [] end.
+(* csv.ToConfig = internal/io ToCsvConfig: Header bool; Columns []string (nil = not given) *)
+Record gef_ToConfig := gef_mk_ToConfig { gef_ToConfig_Header : bool; gef_ToConfig_Columns : option (list bytes) }.
+(* qerrors.Propagate(operation, err) *)
+Definition gef_propagate (op : bytes) (e : gef_error) : gef_error := Some (op, ([] : bytes)).
+(* maps with string keys: association lists with unique keys *)
+Definition gef_map (V : Type) : Type := list (bytes * V).
+Fixpoint gef_map_get {V : Type} (m : gef_map V) (k : bytes) : option V :=
+  match m with
+  | [] => None
+  | (k', v) :: r => if bytes_eqb k' k then Some v else gef_map_get r k
+  end.
+Definition gef_map_get2 {V : Type} (zero : V) (m : gef_map V) (k : bytes) : V * bool :=
+  match gef_map_get m k with Some v => (v, true) | None => (zero, false) end.
+Fixpoint gef_map_set {V : Type} (m : gef_map V) (k : bytes) (v : V) : gef_map V :=
+  match m with
+  | [] => [(k, v)]
+  | (k', v') :: r => if bytes_eqb k' k then (k', v) :: r else (k', v') :: gef_map_set r k v
+  end.
+
+`
+
+const gefPreamble2 = `(* column.Column: the enum column or any other implementation; v, ok := x.(Column) *)
+Inductive gef_anycolumn := gef_col_enum (c : gef_Column) | gef_col_other.
+Definition gef_as_Column (x : gef_anycolumn) : gef_Column * bool :=
+  match x with gef_col_enum c => (c, true) | gef_col_other => (gef_zero_Column, false) end.
+
+`
+
+// ------------------------------------------------------------------ small helpers
+
+func gefSrc(fset *token.FileSet, n ast.Node) string {
+	var b bytes.Buffer
+	printer.Fprint(&b, fset, n)
+	return b.String()
+}
+
+func gefIndent(s string) string {
+	lines := strings.Split(strings.TrimRight(s, "\n"), "\n")
+	for i := range lines {
+		lines[i] = "  " + lines[i]
+	}
+	return strings.Join(lines, "\n")
+}
+
+func gefMentions(text, tok string) bool {
+	re := regexp.MustCompile(`(^|[^A-Za-z0-9_'])` + regexp.QuoteMeta(tok) + `($|[^A-Za-z0-9_'])`)
+	return re.MatchString(text)
+}
+
+func gefGoldenBlock(golden, name string) (string, bool) {
+	b := "(* BEGIN " + name + " *)\n"
+	e := "(* END " + name + " *)\n"
+	i := strings.Index(golden, b)
+	if i < 0 {
+		return "", false
+	}
+	j := strings.Index(golden[i:], e)
+	if j < 0 {
+		return "", false
+	}
+	return golden[i+len(b) : i+j], true
+}
+
+func gefBytesLit(s string) string {
+	if len(s) == 0 {
+		return "([] : bytes)"
+	}
+	var parts []string
+	for i := 0; i < len(s); i++ {
+		parts = append(parts, fmt.Sprintf("%d%%N", s[i]))
+	}
+	return "[" + strings.Join(parts, "; ") + "]"
+}
+
+func gefTuple(parts []string) string {
+	if len(parts) == 0 {
+		return "tt"
+	}
+	if len(parts) == 1 {
+		return parts[0]
+	}
+	return "(" + strings.Join(parts, ", ") + ")"
+}
+
+func gefPat(parts []string) string {
+	if len(parts) == 0 {
+		return "_"
+	}
+	if len(parts) == 1 {
+		return parts[0]
+	}
+	return "(" + strings.Join(parts, ", ") + ")"
+}
+
+func gefTypeTuple(parts []string) string {
+	if len(parts) == 0 {
+		return "unit"
+	}
+	if len(parts) == 1 {
+		return parts[0]
+	}
+	return "(" + strings.Join(parts, " * ") + ")"
+}
+
+// ------------------------------------------------------------------ types
+
+type gefT struct {
+	k     string // int bool string ev u32 err slice ptr struct map anycol nil const
+	sname string
+	el    *gefT
+}
+
+func gefK(k string) *gefT { return &gefT{k: k} }
+
+var gefBad = gefK("bad")
+
+// the group being translated ("ecolumn" / "qframe")
+var gefGroup string
+
+func (t *gefT) same(u *gefT) bool {
+	if t.k != u.k || t.sname != u.sname {
+		return false
+	}
+	if (t.el == nil) != (u.el == nil) {
+		return false
+	}
+	return t.el == nil || t.el.same(u.el)
+}
+
+func (t *gefT) isNum() bool { return t.k == "int" || t.k == "ev" || t.k == "u32" || t.k == "const" }
+
+func (t *gefT) name() string {
+	switch t.k {
+	case "slice":
+		return "[]" + t.el.name()
+	case "ptr":
+		return "*" + t.el.name()
+	case "map":
+		return "map[string]" + t.el.name()
+	case "struct":
+		return t.sname
+	}
+	return t.k
+}
+
+func (t *gefT) coq() string {
+	switch t.k {
+	case "int", "ev", "u32", "const":
+		return "Z"
+	case "bool":
+		return "bool"
+	case "string":
+		return "bytes"
+	case "err":
+		return "gef_error"
+	case "slice":
+		return "(list " + t.el.coq() + ")"
+	case "ptr":
+		return "(option " + t.el.coq() + ")"
+	case "map":
+		return "(gef_map " + t.el.coq() + ")"
+	case "struct":
+		return "gef_" + t.sname
+	case "anycol":
+		return "gef_anycolumn"
+	case "byte":
+		return "N"
+	case "ncol":
+		return "C"
+	case "writer":
+		return "W"
+	case "conffuncs":
+		return "F"
+	case "toconf":
+		return "gef_ToConfig"
+	case "nslice":
+		return "(option (list " + t.el.coq() + "))"
+	case "csvw":
+		return "K"
+	}
+	return "unit"
+}
+
+func (t *gefT) zero() (string, bool) {
+	switch t.k {
+	case "int", "ev", "u32":
+		return "0", true
+	case "bool":
+		return "false", true
+	case "string":
+		return "([] : bytes)", true
+	case "err", "ptr":
+		return "None", true
+	case "slice", "map":
+		return "[]", true
+	case "struct":
+		return "gef_zero_" + t.sname, true
+	case "byte":
+		return "0%N", true
+	case "ncol":
+		return "col_zero", true
+	}
+	return "", false
+}
+
+func gefResolveText(s string) *gefT {
+	switch s {
+	case "int":
+		return gefK("int")
+	case "bool":
+		return gefK("bool")
+	case "string", "[]byte":
+		return gefK("string")
+	case "enumVal":
+		return gefK("ev")
+	case "uint32":
+		return gefK("u32")
+	case "error":
+		return gefK("err")
+	case "index.Int":
+		return &gefT{k: "slice", el: gefK("u32")}
+	case "column.Column":
+		if gefGroup == "qframe" { // a namedColumn seen through the interface it embeds
+			return gefK("ncol")
+		}
+		return gefK("anycol")
+	case "byte":
+		return gefK("byte")
+	case "namedColumn":
+		return gefK("ncol")
+	case "io.Writer":
+		return gefK("writer")
+	}
+	for _, n := range append(append([]string{}, gefStructs...), gejStructs...) {
+		if s == n {
+			return &gefT{k: "struct", sname: n}
+		}
+	}
+	if strings.HasPrefix(s, "[]") {
+		el := gefResolveText(s[2:])
+		if el.k == "bad" {
+			return gefBad
+		}
+		return &gefT{k: "slice", el: el}
+	}
+	if strings.HasPrefix(s, "*") {
+		el := gefResolveText(s[1:])
+		if el.k != "struct" && el.k != "string" {
+			return gefBad
+		}
+		return &gefT{k: "ptr", el: el}
+	}
+	if strings.HasPrefix(s, "map[string]") {
+		el := gefResolveText(s[len("map[string]"):])
+		if el.k == "bad" {
+			return gefBad
+		}
+		return &gefT{k: "map", el: el}
+	}
+	return gefBad
+}
+
+type gefField struct {
+	name string
+	ty   *gefT
+}
+
+type gefStruct struct {
+	name   string
+	fields []gefField
+	src    string
+	ok     bool
+	pkg    string
+}
+
+var gefStructTab map[string]*gefStruct
+
+func gefLoadStructs(p *pkgInfo, names []string, pkgName string) {
+	if gefStructTab == nil {
+		gefStructTab = map[string]*gefStruct{}
+	}
+	for _, f := range p.files {
+		for _, d := range f.Decls {
+			gd, ok := d.(*ast.GenDecl)
+			if !ok || gd.Tok != token.TYPE {
+				continue
+			}
+			for _, s := range gd.Specs {
+				ts := s.(*ast.TypeSpec)
+				want := false
+				for _, n := range names {
+					if n == ts.Name.Name {
+						want = true
+					}
+				}
+				if !want {
+					continue
+				}
+				st, ok := ts.Type.(*ast.StructType)
+				if !ok {
+					problem("enum factory translation: type %s is not a struct", ts.Name.Name)
+					continue
+				}
+				g := &gefStruct{name: ts.Name.Name, ok: true, pkg: pkgName}
+				cp := *st
+				fl := *st.Fields
+				cp.Fields = &fl
+				var plain []*ast.Field
+				for _, fd := range st.Fields.List {
+					c := *fd
+					c.Doc, c.Comment = nil, nil
+					plain = append(plain, &c)
+				}
+				cp.Fields.List = plain
+				g.src = "type " + ts.Name.Name + " " + gefSrc(p.fset, &cp)
+				for _, fd := range st.Fields.List {
+					ty := gefResolveText(gefSrc(p.fset, fd.Type))
+					if ty.k == "bad" {
+						problem("enum factory translation: field type outside the scheme in %s: %s", ts.Name.Name, gefSrc(p.fset, fd.Type))
+						g.ok = false
+					}
+					if len(fd.Names) == 0 {
+						problem("enum factory translation: embedded field in %s", ts.Name.Name)
+						g.ok = false
+					}
+					for _, n := range fd.Names {
+						g.fields = append(g.fields, gefField{n.Name, ty})
+					}
+				}
+				gefStructTab[g.name] = g
+			}
+		}
+	}
+	for _, n := range names {
+		if _, ok := gefStructTab[n]; !ok {
+			problem("enum factory translation: type %s not found in %s", n, pkgName)
+		}
+	}
+}
+
+func (s *gefStruct) field(name string) (*gefT, bool) {
+	for _, f := range s.fields {
+		if f.name == name {
+			return f.ty, true
+		}
+	}
+	return nil, false
+}
+
+func gefCommentSafe(s string) string {
+	s = strings.ReplaceAll(s, "(*", "( *")
+	s = strings.ReplaceAll(s, "*)", "* )")
+	s = strings.ReplaceAll(s, "\"", "'")
+	return s
+}
+
+func (s *gefStruct) record() string {
+	var b strings.Builder
+	fmt.Fprintf(&b, "(* %s\n%s *)\n", s.pkg, gefCommentSafe(s.src))
+	fmt.Fprintf(&b, "Record gef_%s := gef_mk_%s {\n", s.name, s.name)
+	for i, f := range s.fields {
+		sep := ";"
+		if i+1 == len(s.fields) {
+			sep = " }."
+		}
+		fmt.Fprintf(&b, "  gef_%s_%s : %s%s\n", s.name, f.name, f.ty.coq(), sep)
+	}
+	for i, f := range s.fields {
+		var args []string
+		for j, g := range s.fields {
+			if i == j {
+				args = append(args, "v")
+			} else {
+				args = append(args, fmt.Sprintf("(gef_%s_%s r)", s.name, g.name))
+			}
+		}
+		fmt.Fprintf(&b, "Definition gef_%s_set_%s (r : gef_%s) (v : %s) : gef_%s :=\n  gef_mk_%s %s.\n", s.name, f.name, s.name, f.ty.coq(), s.name, s.name, strings.Join(args, " "))
+	}
+	var zs []string
+	for _, f := range s.fields {
+		z, _ := f.ty.zero()
+		zs = append(zs, z)
+	}
+	fmt.Fprintf(&b, "Definition gef_zero_%s : gef_%s := gef_mk_%s %s.\n", s.name, s.name, s.name, strings.Join(zs, " "))
+	return b.String()
+}
+
+// ------------------------------------------------------------------ translation state
+
+type gefVar struct {
+	name string
+	coq  string
+	ty   *gefT
+}
+
+type gefFunc struct {
+	fn      string // Go name ("T.m" or "f")
+	fd      *ast.FuncDecl
+	coq     string
+	recv    *gefVar
+	params  []gefVar
+	results []*gefT
+	mut     bool     // stores into its (pointer) receiver: the new receiver is answered last
+	outs    []gefVar // io.Writer arguments: their final state is answered after the results
+	group   string
+	pkg     string
+	text    string
+	ok      bool
+	done    bool
+}
+
+var gefFuncs map[string]*gefFunc
+
+// the names of the io.Writer arguments of the function being translated
+var gefWriterNames = map[string]bool{}
+
+type gefCtx struct {
+	vars []gefVar
+	top  bool                // the continuation of this block is the tail of the function
+	next func(gefCtx) string // continue: the next trip of the enclosing loop (nil outside loops)
+}
+
+type gefTr struct {
+	p      *pkgInfo
+	f      *gefFunc
+	bad    bool
+	ntmp   int
+	loops  []string
+	nloops int
+}
+
+func (t *gefTr) fail(n ast.Node, format string, a ...interface{}) {
+	if !t.bad {
+		pos := ""
+		if n != nil {
+			pos = t.p.fset.Position(n.Pos()).String()
+			pos = strings.TrimPrefix(pos, repo+"/") + ": "
+		}
+		problem("enum factory translation of %s: %s%s", t.f.fn, pos, fmt.Sprintf(format, a...))
+	}
+	t.bad = true
+}
+
+func (t *gefTr) src(n ast.Node) string { return gefSrc(t.p.fset, n) }
+
+func (t *gefTr) tmp() string {
+	t.ntmp++
+	return fmt.Sprintf("t%d", t.ntmp)
+}
+
+func (c gefCtx) lookup(name string) (gefVar, bool) {
+	for i := len(c.vars) - 1; i >= 0; i-- {
+		if c.vars[i].name == name {
+			return c.vars[i], true
+		}
+	}
+	return gefVar{}, false
+}
+
+func (t *gefTr) resolve(e ast.Expr) *gefT {
+	ty := gefResolveText(t.src(e))
+	if ty.k == "bad" {
+		t.fail(e, "type outside the scheme: %s", t.src(e))
+	}
+	return ty
+}
+
+// coerce checks that a value of type have can stand where want is expected
+func (t *gefTr) coerce(n ast.Node, text string, have, want *gefT) string {
+	if have.k == "bad" || want.k == "bad" {
+		return text
+	}
+	if have.same(want) {
+		return text
+	}
+	if have.k == "nil" {
+		switch want.k {
+		case "err", "ptr":
+			return "None"
+		case "slice":
+			return "[]"
+		}
+	}
+	if have.k == "const" && (want.k == "int" || want.k == "ev" || want.k == "u32") {
+		v, err := strconv.ParseInt(strings.Trim(text, "()"), 10, 64)
+		if err == nil && (want.k == "int" || v >= 0 && (want.k == "ev" && v < 256 || want.k == "u32" && v < 4294967296)) {
+			return text
+		}
+	}
+	if have.k == "const" && want.k == "byte" {
+		v, err := strconv.ParseInt(strings.Trim(text, "()"), 10, 64)
+		if err == nil && v >= 0 && v < 256 {
+			return fmt.Sprintf("%d%%N", v)
+		}
+	}
+	t.fail(n, "a value of type %s stands where %s is expected: %s", have.name(), want.name(), t.src(n))
+	return text
+}
+
+// packageConst folds a package level integer constant
+func (t *gefTr) packageConst(name string, depth int) (int64, bool) {
+	e, ok := t.p.consts[name]
+	if !ok || depth > 8 {
+		return 0, false
+	}
+	switch x := e.(type) {
+	case *ast.BasicLit:
+		if x.Kind == token.INT {
+			v, err := strconv.ParseInt(x.Value, 0, 64)
+			return v, err == nil
+		}
+	case *ast.Ident:
+		return t.packageConst(x.Name, depth+1)
+	}
+	return 0, false
+}
+
+func gefConstText(v int64) string {
+	if v < 0 {
+		return fmt.Sprintf("(%d)", v)
+	}
+	return fmt.Sprintf("%d", v)
+}
+
+// ------------------------------------------------------------------ expressions
+
+// asSlice reads a nilable slice (a struct field that is compared with nil) as the slice it is
+func gefAsSlice(text string, ty *gefT) (string, *gefT) {
+	if ty.k == "nslice" {
+		return "(gef_nslice " + text + ")", &gefT{k: "slice", el: ty.el}
+	}
+	return text, ty
+}
+
+// structOf: the struct a value or pointer expression denotes (dereferencing a pointer)
+func (t *gefTr) structOf(e ast.Expr, c gefCtx, pre *[]string) (string, *gefStruct) {
+	x, ty := t.expr(e, c, pre)
+	switch {
+	case ty.k == "struct":
+		return x, gefStructTab[ty.sname]
+	case ty.k == "ptr" && ty.el.k == "struct":
+		v := t.tmp()
+		*pre = append(*pre, fmt.Sprintf("do %s <- gef_deref %s;", v, x))
+		return v, gefStructTab[ty.el.sname]
+	}
+	return x, nil
+}
+
+func (t *gefTr) expr(e ast.Expr, c gefCtx, pre *[]string) (string, *gefT) {
+	switch x := e.(type) {
+	case *ast.ParenExpr:
+		return t.expr(x.X, c, pre)
+	case *ast.BasicLit:
+		switch x.Kind {
+		case token.INT:
+			v, err := strconv.ParseInt(x.Value, 0, 64)
+			if err != nil {
+				t.fail(e, "integer literal outside the scheme: %s", x.Value)
+			}
+			return gefConstText(v), gefK("const")
+		case token.STRING:
+			s, err := strconv.Unquote(x.Value)
+			if err != nil {
+				t.fail(e, "string literal outside the scheme: %s", x.Value)
+			}
+			return gefBytesLit(s), gefK("string")
+		case token.CHAR:
+			r, _, _, err := strconv.UnquoteChar(strings.Trim(x.Value, "'"), '\'')
+			if err != nil || r >= 128 {
+				t.fail(e, "character literal outside the scheme: %s", x.Value)
+			}
+			return gefConstText(int64(r)), gefK("const")
+		}
+	case *ast.Ident:
+		switch x.Name {
+		case "nil":
+			return "None", gefK("nil")
+		case "true", "false":
+			if _, shadowed := c.lookup(x.Name); !shadowed {
+				return x.Name, gefK("bool")
+			}
+		}
+		if v, ok := c.lookup(x.Name); ok {
+			return v.coq, v.ty
+		}
+		if v, ok := t.packageConst(x.Name, 0); ok {
+			return gefConstText(v), gefK("const")
+		}
+	case *ast.SelectorExpr:
+		if id, ok := x.X.(*ast.Ident); ok {
+			if v, isVar := c.lookup(id.Name); isVar && v.ty.k == "ncol" && x.Sel.Name == "name" {
+				return fmt.Sprintf("(col_name %s)", v.coq), gefK("string")
+			}
+			if v, isVar := c.lookup(id.Name); isVar && v.ty.k == "toconf" {
+				switch x.Sel.Name {
+				case "Header":
+					return fmt.Sprintf("(gef_ToConfig_Header %s)", v.coq), gefK("bool")
+				case "Columns":
+					return fmt.Sprintf("(gef_ToConfig_Columns %s)", v.coq), &gefT{k: "nslice", el: gefK("string")}
+				}
+			}
+		}
+		s, st := t.structOf(x.X, c, pre)
+		if st != nil {
+			if fty, ok := st.field(x.Sel.Name); ok {
+				return fmt.Sprintf("(gef_%s_%s %s)", st.name, x.Sel.Name, s), fty
+			}
+		}
+	case *ast.StarExpr:
+		s, ty := t.expr(x.X, c, pre)
+		if ty.k == "ptr" && ty.el.k == "string" {
+			v := t.tmp()
+			*pre = append(*pre, fmt.Sprintf("do %s <- gef_deref %s;", v, s))
+			return v, ty.el
+		}
+	case *ast.IndexExpr:
+		s, ty := t.expr(x.X, c, pre)
+		s, ty = gefAsSlice(s, ty)
+		i, ti := t.expr(x.Index, c, pre)
+		if ty.k == "map" && ti.k == "string" {
+			if z, ok := ty.el.zero(); ok {
+				return fmt.Sprintf("(gef_map_get1 %s %s %s)", z, s, i), ty.el
+			}
+		}
+		if ty.k == "slice" && ti.isNum() {
+			v := t.tmp()
+			*pre = append(*pre, fmt.Sprintf("do %s <- gef_index %s %s;", v, s, i))
+			return v, ty.el
+		}
+		if ty.k == "string" && ti.isNum() {
+			v := t.tmp()
+			*pre = append(*pre, fmt.Sprintf("do %s <- gef_index %s %s;", v, s, i))
+			return v, gefK("byte")
+		}
+	case *ast.SliceExpr:
+		s, ty := t.expr(x.X, c, pre)
+		if (ty.k == "slice" || ty.k == "string") && x.Low == nil && x.High != nil && !x.Slice3 {
+			h, th := t.expr(x.High, c, pre)
+			if th.k == "const" && h == "0" {
+				return fmt.Sprintf("([] : %s)", ty.coq()), ty
+			}
+			if th.k == "int" {
+				v := t.tmp()
+				*pre = append(*pre, fmt.Sprintf("do %s <- gef_prefix %s %s;", v, s, h))
+				return v, ty
+			}
+		}
+	case *ast.UnaryExpr:
+		switch x.Op {
+		case token.NOT:
+			s, ty := t.expr(x.X, c, pre)
+			if ty.k == "bool" {
+				return "(negb " + s + ")", ty
+			}
+		case token.SUB:
+			if lit, ok := x.X.(*ast.BasicLit); ok && lit.Kind == token.INT {
+				v, err := strconv.ParseInt(lit.Value, 0, 64)
+				if err == nil {
+					return gefConstText(-v), gefK("const")
+				}
+			}
+		case token.AND:
+			if cl, ok := x.X.(*ast.CompositeLit); ok {
+				s, ty := t.composite(cl, c, pre)
+				if ty.k == "struct" {
+					return "(Some " + s + ")", &gefT{k: "ptr", el: ty}
+				}
+			}
+		}
+	case *ast.CompositeLit:
+		return t.composite(x, c, pre)
+	case *ast.BinaryExpr:
+		return t.binary(x, c, pre)
+	case *ast.CallExpr:
+		rs, tys := t.call(x, c, pre, false)
+		if len(rs) == 1 {
+			return rs[0], tys[0]
+		}
+		if len(rs) > 1 {
+			t.fail(e, "a call with %d results inside an expression", len(rs))
+			return "tt", gefBad
+		}
+		if t.bad {
+			return "tt", gefBad
+		}
+	}
+	t.fail(e, "expression outside the scheme: %s", t.src(e))
+	return "tt", gefBad
+}
+
+func (t *gefTr) composite(cl *ast.CompositeLit, c gefCtx, pre *[]string) (string, *gefT) {
+	ty := t.resolve(cl.Type)
+	if ty.k == "string" && t.src(cl.Type) == "[]byte" {
+		var parts []string
+		for _, el := range cl.Elts {
+			s, te := t.expr(el, c, pre)
+			parts = append(parts, t.coerce(el, s, te, gefK("byte")))
+		}
+		if len(parts) == 0 {
+			return "([] : bytes)", ty
+		}
+		return "[" + strings.Join(parts, "; ") + "]", ty
+	}
+	if ty.k != "struct" {
+		t.fail(cl, "composite literal outside the scheme: %s", t.src(cl))
+		return "tt", gefBad
+	}
+	st := gefStructTab[ty.sname]
+	vals := map[string]string{}
+	for _, el := range cl.Elts {
+		kv, ok := el.(*ast.KeyValueExpr)
+		if !ok {
+			t.fail(el, "composite literal element without field name")
+			continue
+		}
+		id, ok := kv.Key.(*ast.Ident)
+		if !ok {
+			t.fail(el, "composite literal key outside the scheme")
+			continue
+		}
+		fty, ok := st.field(id.Name)
+		if !ok {
+			t.fail(el, "unknown field %s of %s", id.Name, st.name)
+			continue
+		}
+		if _, dup := vals[id.Name]; dup {
+			t.fail(el, "field %s given twice", id.Name)
+		}
+		s, vty := t.expr(kv.Value, c, pre)
+		vals[id.Name] = t.coerce(kv.Value, s, vty, fty)
+	}
+	if len(cl.Elts) == 0 {
+		return "gef_zero_" + st.name, ty
+	}
+	parts := []string{"gef_mk_" + st.name}
+	for _, f := range st.fields {
+		if v, ok := vals[f.name]; ok {
+			parts = append(parts, v)
+		} else {
+			z, _ := f.ty.zero()
+			parts = append(parts, z)
+		}
+	}
+	return "(" + strings.Join(parts, " ") + ")", ty
+}
+
+func (t *gefTr) binary(x *ast.BinaryExpr, c gefCtx, pre *[]string) (string, *gefT) {
+	if x.Op == token.LAND || x.Op == token.LOR {
+		a, ta := t.expr(x.X, c, pre)
+		var pre2 []string
+		b, tb := t.expr(x.Y, c, &pre2)
+		if ta.k != "bool" || tb.k != "bool" {
+			t.fail(x, "logical operator on something that is not a bool: %s", t.src(x))
+			return "false", gefK("bool")
+		}
+		if len(pre2) == 0 {
+			if x.Op == token.LAND {
+				return fmt.Sprintf("(%s && %s)", a, b), ta
+			}
+			return fmt.Sprintf("(%s || %s)", a, b), ta
+		}
+		v := t.tmp()
+		inner := gefIndent(strings.Join(append(pre2, "Ok "+b), "\n"))
+		if x.Op == token.LAND {
+			*pre = append(*pre, fmt.Sprintf("do %s <- (if %s then (\n%s)\n  else Ok false);", v, a, inner))
+		} else {
+			*pre = append(*pre, fmt.Sprintf("do %s <- (if %s then Ok true else (\n%s));", v, a, inner))
+		}
+		return v, ta
+	}
+	a, ta := t.expr(x.X, c, pre)
+	b, tb := t.expr(x.Y, c, pre)
+	if ta.k == "bad" || tb.k == "bad" {
+		return "tt", gefBad
+	}
+	numOk := ta.isNum() && tb.isNum() && (ta.k == tb.k || ta.k == "const" || tb.k == "const")
+	resNum := ta
+	if ta.k == "const" {
+		resNum = tb
+	}
+	switch x.Op {
+	case token.EQL, token.NEQ:
+		var r string
+		switch {
+		case numOk:
+			r = fmt.Sprintf("(%s =? %s)", a, b)
+		case ta.k == "string" && tb.k == "string":
+			r = fmt.Sprintf("(bytes_eqb %s %s)", a, b)
+		case ta.k == "byte" && (tb.k == "const" || tb.k == "byte"):
+			r = fmt.Sprintf("(%s =? %s)%%N", a, t.coerce(x.Y, b, tb, ta))
+		case ta.k == "bool" && tb.k == "bool":
+			r = fmt.Sprintf("(Bool.eqb %s %s)", a, b)
+		case (ta.k == "err" || ta.k == "ptr" || ta.k == "nslice") && tb.k == "nil":
+			r = fmt.Sprintf("(gef_isnil %s)", a)
+		case ta.k == "slice" && tb.k == "nil":
+			r = fmt.Sprintf("(Z.of_nat (length %s) =? 0)", a)
+			t.fail(x, "comparison of a slice with nil (nil and empty are not told apart)")
+		default:
+			t.fail(x, "comparison outside the scheme: %s", t.src(x))
+			return "false", gefK("bool")
+		}
+		if x.Op == token.NEQ {
+			r = "(negb " + r + ")"
+		}
+		return r, gefK("bool")
+	case token.LSS, token.LEQ, token.GTR, token.GEQ:
+		if !numOk {
+			t.fail(x, "ordering outside the scheme: %s", t.src(x))
+			return "false", gefK("bool")
+		}
+		switch x.Op {
+		case token.LSS:
+			return fmt.Sprintf("(%s <? %s)", a, b), gefK("bool")
+		case token.LEQ:
+			return fmt.Sprintf("(%s <=? %s)", a, b), gefK("bool")
+		case token.GTR:
+			return fmt.Sprintf("(%s <? %s)", b, a), gefK("bool")
+		}
+		return fmt.Sprintf("(%s <=? %s)", b, a), gefK("bool")
+	case token.ADD, token.SUB:
+		if numOk && (resNum.k == "int" || resNum.k == "const") {
+			op := "+"
+			if x.Op == token.SUB {
+				op = "-"
+			}
+			if resNum.k == "const" {
+				t.fail(x, "constant arithmetic outside the scheme: %s", t.src(x))
+			}
+			return fmt.Sprintf("(%s %s %s)", a, op, b), resNum
+		}
+	}
+	t.fail(x, "operator outside the scheme: %s", t.src(x))
+	return "tt", gefBad
+}
+
+// ------------------------------------------------------------------ calls
+
+func (t *gefTr) args(g *gefFunc, ce *ast.CallExpr, c gefCtx, pre *[]string) []string {
+	var out []string
+	if len(ce.Args) != len(g.params) || ce.Ellipsis.IsValid() {
+		t.fail(ce, "call of %s with %d arguments (it has %d parameters)", g.fn, len(ce.Args), len(g.params))
+		return out
+	}
+	for i, a := range ce.Args {
+		s, ty := t.expr(a, c, pre)
+		if ty.k == "ptr" && ty.el.k == "struct" {
+			t.fail(a, "a struct pointer is copied into an argument: %s", t.src(a))
+		}
+		out = append(out, t.coerce(a, s, ty, g.params[i].ty))
+	}
+	return out
+}
+
+// call translates a call; the results are bound to fresh names by lines added to pre.  A method that stores into
+// its receiver is only accepted when allowMut is set (statement level); its receiver must be a variable.
+func (t *gefTr) call(x *ast.CallExpr, c gefCtx, pre *[]string, allowMut bool) ([]string, []*gefT) {
+	one := func(s string, ty *gefT) ([]string, []*gefT) { return []string{s}, []*gefT{ty} }
+	badRes := func() ([]string, []*gefT) { return []string{"tt"}, []*gefT{gefBad} }
+	invoke := func(g *gefFunc, recvArg string, store func(string)) ([]string, []*gefT) {
+		if !g.done || g.text == "" {
+			t.fail(x, "call of %s, which is not translated before this function", g.fn)
+			return badRes()
+		}
+		parts := []string{g.coq}
+		if recvArg != "" {
+			parts = append(parts, recvArg)
+		}
+		parts = append(parts, t.args(g, x, c, pre)...)
+		var names []string
+		for range g.results {
+			names = append(names, t.tmp())
+		}
+		pat := append([]string{}, names...)
+		newRecv := ""
+		if g.mut {
+			newRecv = t.tmp()
+			pat = append(pat, newRecv)
+		}
+		*pre = append(*pre, fmt.Sprintf("do %s <- %s;", gefPat(pat), strings.Join(parts, " ")))
+		if g.mut {
+			store(newRecv)
+		}
+		return names, g.results
+	}
+	switch fn := x.Fun.(type) {
+	case *ast.Ident:
+		if _, isVar := c.lookup(fn.Name); isVar {
+			t.fail(x, "call of a variable: %s", t.src(x))
+			return badRes()
+		}
+		switch fn.Name {
+		case "len":
+			if len(x.Args) == 1 {
+				s, ty := t.expr(x.Args[0], c, pre)
+				s, ty = gefAsSlice(s, ty)
+				if ty.k == "slice" || ty.k == "string" {
+					return one(fmt.Sprintf("(Z.of_nat (length %s))", s), gefK("int"))
+				}
+			}
+		case "enumVal":
+			if len(x.Args) == 1 {
+				s, ty := t.expr(x.Args[0], c, pre)
+				if ty.k == "int" {
+					return one(fmt.Sprintf("(gef_u8 %s)", s), gefK("ev"))
+				}
+				if ty.k == "ev" || ty.k == "const" {
+					return one(t.coerce(x.Args[0], s, ty, gefK("ev")), gefK("ev"))
+				}
+			}
+		case "int":
+			if len(x.Args) == 1 {
+				s, ty := t.expr(x.Args[0], c, pre)
+				if ty.k == "int" || ty.k == "ev" || ty.k == "u32" {
+					return one(s, gefK("int"))
+				}
+			}
+		case "string":
+			if len(x.Args) == 1 {
+				s, ty := t.expr(x.Args[0], c, pre)
+				if ty.k == "string" {
+					return one(s, ty)
+				}
+			}
+		case "byte":
+			if len(x.Args) == 1 {
+				s, ty := t.expr(x.Args[0], c, pre)
+				if ty.k == "const" || ty.k == "byte" {
+					return one(t.coerce(x.Args[0], s, ty, gefK("byte")), gefK("byte"))
+				}
+			}
+		case "make":
+			if len(x.Args) >= 2 {
+				ty := t.resolve(x.Args[0])
+				if ty.k == "map" && len(x.Args) == 2 {
+					_, tn := t.expr(x.Args[1], c, pre)
+					if tn.isNum() {
+						return one(fmt.Sprintf("([] : %s)", ty.coq()), ty)
+					}
+				}
+				if ty.k == "slice" && len(x.Args) == 2 {
+					if z, ok := ty.el.zero(); ok && t.src(x.Args[1]) != "0" {
+						n, tn := t.expr(x.Args[1], c, pre)
+						if tn.k == "int" {
+							v := t.tmp()
+							*pre = append(*pre, fmt.Sprintf("do %s <- gef_make %s %s;", v, z, n))
+							return one(v, ty)
+						}
+					}
+				}
+				if ty.k == "slice" {
+					n, tn := t.expr(x.Args[1], c, pre)
+					if tn.k == "const" && n == "0" {
+						if len(x.Args) == 2 {
+							return one(fmt.Sprintf("([] : %s)", ty.coq()), ty)
+						}
+						cp, tc := t.expr(x.Args[2], c, pre)
+						if tc.isNum() {
+							v := t.tmp()
+							*pre = append(*pre, fmt.Sprintf("do %s <- gef_make0 (T := %s) %s;", v, ty.el.coq(), cp))
+							return one(v, ty)
+						}
+					}
+				}
+			}
+		default:
+			if g, ok := gefFuncs[fn.Name]; ok && g.recv == nil {
+				return invoke(g, "", nil)
+			}
+		}
+	case *ast.SelectorExpr:
+		if id, ok := fn.X.(*ast.Ident); ok && id.Name == "qerrors" && fn.Sel.Name == "New" {
+			if _, isVar := c.lookup("qerrors"); !isVar && len(x.Args) >= 2 {
+				op, t1 := t.expr(x.Args[0], c, pre)
+				second := x.Args[1]
+				var extra []ast.Expr
+				if sp, ok := second.(*ast.CallExpr); ok && t.src(sp.Fun) == "fmt.Sprintf" && len(sp.Args) >= 1 {
+					second, extra = sp.Args[0], sp.Args[1:]
+				}
+				fm, t2 := t.expr(second, c, pre)
+				for _, a := range extra {
+					t.expr(a, c, pre)
+				}
+				_, lit1 := x.Args[0].(*ast.BasicLit)
+				_, lit2 := second.(*ast.BasicLit)
+				if t1.k == "string" && t2.k == "string" && lit1 && lit2 {
+					for _, a := range x.Args[2:] {
+						t.expr(a, c, pre) // evaluated (a nil dereference stays a Panic), dropped
+					}
+					return one(fmt.Sprintf("(Some (%s, %s))", op, fm), gefK("err"))
+				}
+			}
+			break
+		}
+		if id, ok := fn.X.(*ast.Ident); ok && id.Name == "qerrors" && fn.Sel.Name == "Propagate" && len(x.Args) == 2 {
+			if _, isVar := c.lookup("qerrors"); !isVar {
+				op, t1 := t.expr(x.Args[0], c, pre)
+				e, t2 := t.expr(x.Args[1], c, pre)
+				_, lit1 := x.Args[0].(*ast.BasicLit)
+				if t1.k == "string" && t2.k == "err" && lit1 {
+					return one(fmt.Sprintf("(gef_propagate %s %s)", op, e), gefK("err"))
+				}
+			}
+			break
+		}
+		if id, ok := fn.X.(*ast.Ident); ok && t.f.group == "qframe" {
+			_, isVar := c.lookup(id.Name)
+			switch {
+			case !isVar && id.Name == "csv" && fn.Sel.Name == "NewToConfig" && len(x.Args) == 1:
+				a, ta := t.expr(x.Args[0], c, pre)
+				if ta.k == "conffuncs" {
+					return one(fmt.Sprintf("(new_to_config %s)", a), gefK("toconf"))
+				}
+			case !isVar && id.Name == "stdcsv" && fn.Sel.Name == "NewWriter" && len(x.Args) == 1:
+				a, ta := t.expr(x.Args[0], c, pre)
+				if ta.k == "writer" {
+					return one(fmt.Sprintf("(csv_NewWriter %s)", a), gefK("csvw"))
+				}
+			}
+			if v, ok := c.lookup(id.Name); ok && v.ty.k == "csvw" {
+				switch {
+				case fn.Sel.Name == "Write" && len(x.Args) == 1 && allowMut:
+					a, ta := t.expr(x.Args[0], c, pre)
+					if ta.k == "slice" && ta.el.k == "string" {
+						e, k := t.tmp(), t.tmp()
+						*pre = append(*pre, fmt.Sprintf("let '(%s, %s) := csvw_Write %s %s in", e, k, v.coq, a))
+						*pre = append(*pre, fmt.Sprintf("let %s := %s in", v.coq, k))
+						return one(e, gefK("err"))
+					}
+				case fn.Sel.Name == "Flush" && len(x.Args) == 0 && allowMut:
+					*pre = append(*pre, fmt.Sprintf("let %s := csvw_Flush %s in", v.coq, v.coq))
+					return nil, nil
+				case fn.Sel.Name == "Error" && len(x.Args) == 0:
+					return one(fmt.Sprintf("(csvw_Error %s)", v.coq), gefK("err"))
+				}
+			}
+		}
+		// ix.Len() on an index.Int (body text-matched)
+		if fn.Sel.Name == "Len" && len(x.Args) == 0 && t.f.group == "qframe" {
+			var pre3 []string
+			if s3, t3 := t.expr(fn.X, c, &pre3); t3.k == "slice" && t3.el.k == "u32" && len(pre3) == 0 {
+				return one(fmt.Sprintf("(Z.of_nat (length %s))", s3), gefK("int"))
+			}
+		}
+		if id, ok := fn.X.(*ast.Ident); ok && id.Name == "qfstrings" && fn.Sel.Name == "AppendQuotedString" && len(x.Args) == 2 && t.f.group == "ecolumnR" {
+			if _, isVar := c.lookup("qfstrings"); !isVar {
+				a, ta := t.expr(x.Args[0], c, pre)
+				b, tb := t.expr(x.Args[1], c, pre)
+				if ta.k == "string" && tb.k == "string" {
+					v := t.tmp()
+					*pre = append(*pre, fmt.Sprintf("do %s <- append_quoted_string %s %s;", v, a, b))
+					return one(v, gefK("string"))
+				}
+			}
+			break
+		}
+		if id, ok := fn.X.(*ast.Ident); ok && id.Name == "qfstrings" && fn.Sel.Name == "QuotedBytes" && len(x.Args) == 1 && t.f.group == "qframe" {
+			if _, isVar := c.lookup("qfstrings"); !isVar {
+				a, ta := t.expr(x.Args[0], c, pre)
+				if ta.k == "string" {
+					v := t.tmp()
+					*pre = append(*pre, fmt.Sprintf("do %s <- quoted_bytes %s;", v, a))
+					return one(v, gefK("string"))
+				}
+			}
+			break
+		}
+		if id, ok := fn.X.(*ast.Ident); ok {
+			if v, isVar := c.lookup(id.Name); isVar && v.ty.k == "ncol" {
+				switch {
+				case fn.Sel.Name == "AppendByteStringAt" && len(x.Args) == 2:
+					a, ta := t.expr(x.Args[0], c, pre)
+					b, tb := t.expr(x.Args[1], c, pre)
+					if ta.k == "string" && tb.k == "u32" {
+						r := t.tmp()
+						*pre = append(*pre, fmt.Sprintf("do %s <- col_AppendByteStringAt %s %s %s;", r, v.coq, a, b))
+						return one(r, gefK("string"))
+					}
+				case fn.Sel.Name == "StringAt" && len(x.Args) == 2:
+					a, ta := t.expr(x.Args[0], c, pre)
+					b, tb := t.expr(x.Args[1], c, pre)
+					if ta.k == "u32" && tb.k == "string" {
+						r := t.tmp()
+						*pre = append(*pre, fmt.Sprintf("do %s <- col_StringAt %s %s %s;", r, v.coq, a, b))
+						return one(r, gefK("string"))
+					}
+				}
+				break
+			}
+			if v, isVar := c.lookup(id.Name); isVar && v.ty.k == "writer" {
+				if fn.Sel.Name == "Write" && len(x.Args) == 1 && allowMut {
+					a, ta := t.expr(x.Args[0], c, pre)
+					if ta.k == "string" {
+						n, e, w := t.tmp(), t.tmp(), t.tmp()
+						*pre = append(*pre, fmt.Sprintf("let '(%s, %s, %s) := writer_Write %s %s in", n, e, w, v.coq, a))
+						*pre = append(*pre, fmt.Sprintf("let %s := %s in", v.coq, w))
+						return []string{n, e}, []*gefT{gefK("int"), gefK("err")}
+					}
+				}
+				break
+			}
+		}
+		// a method of enumVal
+		if id, ok := fn.X.(*ast.Ident); ok {
+			if v, isVar := c.lookup(id.Name); isVar && v.ty.k == "ev" {
+				if fn.Sel.Name == "isNull" && len(x.Args) == 0 {
+					return one(fmt.Sprintf("(gf_ecolumn_enumVal_isNull %s)", v.coq), gefK("bool"))
+				}
+				break
+			}
+		}
+		// a translated method
+		var pre2 []string
+		_, rty := t.expr(fn.X, c, &pre2)
+		sname := ""
+		isPtr := false
+		switch {
+		case rty.k == "struct":
+			sname = rty.sname
+		case rty.k == "ptr" && rty.el.k == "struct":
+			sname, isPtr = rty.el.sname, true
+		}
+		g, ok := gefFuncs[sname+"."+fn.Sel.Name]
+		if sname == "" || !ok || g.recv == nil {
+			break
+		}
+		if !g.mut {
+			s, _ := t.structOf(fn.X, c, pre)
+			return invoke(g, s, nil)
+		}
+		id, isId := fn.X.(*ast.Ident)
+		if !allowMut || !isId {
+			t.fail(x, "a call of %s, which stores into its receiver, outside statement level or on something that is not a variable", g.fn)
+			return badRes()
+		}
+		v, _ := c.lookup(id.Name)
+		if isPtr {
+			d := t.tmp()
+			*pre = append(*pre, fmt.Sprintf("do %s <- gef_deref %s;", d, v.coq))
+			return invoke(g, d, func(n string) { *pre = append(*pre, fmt.Sprintf("let %s := Some %s in", v.coq, n)) })
+		}
+		return invoke(g, v.coq, func(n string) { *pre = append(*pre, fmt.Sprintf("let %s := %s in", v.coq, n)) })
+	}
+	t.fail(x, "call outside the scheme: %s", t.src(x))
+	return badRes()
+}
+
+// ------------------------------------------------------------------ statements
+
+func gefRootIdent(e ast.Expr) string {
+	switch x := e.(type) {
+	case *ast.Ident:
+		return x.Name
+	case *ast.SelectorExpr:
+		return gefRootIdent(x.X)
+	case *ast.IndexExpr:
+		return gefRootIdent(x.X)
+	case *ast.ParenExpr:
+		return gefRootIdent(x.X)
+	case *ast.StarExpr:
+		return "*"
+	}
+	return ""
+}
+
+// gefMutMethod: some translated method of that name stores into its receiver
+func gefMutMethod(name string) bool {
+	for k, g := range gefFuncs {
+		if strings.HasSuffix(k, "."+name) && g.mut {
+			return true
+		}
+	}
+	return false
+}
+
+// gefAssignedNames collects the names stored into and the names declared inside the nodes
+func gefAssignedNames(nodes ...ast.Node) (assigned, declared map[string]bool) {
+	assigned, declared = map[string]bool{}, map[string]bool{}
+	for _, n := range nodes {
+		if n == nil {
+			continue
+		}
+		ast.Inspect(n, func(m ast.Node) bool {
+			switch s := m.(type) {
+			case *ast.AssignStmt:
+				for _, l := range s.Lhs {
+					if s.Tok == token.DEFINE {
+						declared[gefRootIdent(l)] = true
+					} else {
+						assigned[gefRootIdent(l)] = true
+					}
+				}
+			case *ast.IncDecStmt:
+				assigned[gefRootIdent(s.X)] = true
+			case *ast.RangeStmt:
+				if s.Key != nil {
+					declared[gefRootIdent(s.Key)] = true
+				}
+				if s.Value != nil {
+					declared[gefRootIdent(s.Value)] = true
+				}
+			case *ast.ValueSpec:
+				for _, id := range s.Names {
+					declared[id.Name] = true
+				}
+			case *ast.CallExpr:
+				if se, ok := s.Fun.(*ast.SelectorExpr); ok && gefMutMethod(se.Sel.Name) {
+					assigned[gefRootIdent(se.X)] = true
+				}
+				if se, ok := s.Fun.(*ast.SelectorExpr); ok && gefWriterNames[gefRootIdent(se.X)] && (se.Sel.Name == "Write" || se.Sel.Name == "Flush") {
+					assigned[gefRootIdent(se.X)] = true
+				}
+			}
+			return true
+		})
+	}
+	delete(declared, "_")
+	delete(assigned, "_")
+	return
+}
+
+// assigned: the variables of c stored into inside the nodes, in context order
+func (t *gefTr) assigned(c gefCtx, nodes ...ast.Node) []gefVar {
+	as, decl := gefAssignedNames(nodes...)
+	var out []gefVar
+	seen := map[string]bool{}
+	var at ast.Node
+	for _, n := range nodes {
+		if n != nil {
+			at = n
+			break
+		}
+	}
+	for i := len(c.vars) - 1; i >= 0; i-- {
+		v := c.vars[i]
+		if seen[v.name] {
+			continue
+		}
+		seen[v.name] = true
+		if as[v.name] {
+			if decl[v.name] {
+				t.fail(at, "the variable %s is stored into in a block that also declares a variable of that name", v.name)
+			}
+			out = append([]gefVar{v}, out...)
+		}
+	}
+	if as["*"] {
+		t.fail(at, "store through a pointer")
+	}
+	return out
+}
+
+func gefCoqNames(vs []gefVar) []string {
+	var out []string
+	for _, v := range vs {
+		out = append(out, v.coq)
+	}
+	return out
+}
+
+func gefCoqTypes(vs []gefVar) []string {
+	var out []string
+	for _, v := range vs {
+		out = append(out, v.ty.coq())
+	}
+	return out
+}
+
+// scope: the position in c.vars where the innermost block begins is kept in a variable named "{"
+func gefOpen(c gefCtx) gefCtx {
+	r := c
+	r.vars = append(append([]gefVar{}, c.vars...), gefVar{name: "{"})
+	return r
+}
+
+func (c gefCtx) inScope(name string) (gefVar, bool) {
+	for i := len(c.vars) - 1; i >= 0; i-- {
+		if c.vars[i].name == "{" {
+			break
+		}
+		if c.vars[i].name == name {
+			return c.vars[i], true
+		}
+	}
+	return gefVar{}, false
+}
+
+// declare introduces a variable of the innermost block; one that shadows an outer variable gets a fresh Coq name
+func (t *gefTr) declare(n ast.Node, c *gefCtx, name string, ty *gefT) string {
+	if name == "_" {
+		return "_"
+	}
+	coq := "v_" + name
+	if _, ok := c.lookup(name); ok {
+		k := 2
+		for {
+			coq = fmt.Sprintf("v_%s_%d", name, k)
+			used := false
+			for _, v := range c.vars {
+				if v.coq == coq {
+					used = true
+				}
+			}
+			if !used {
+				break
+			}
+			k++
+		}
+	}
+	c.vars = append(append([]gefVar{}, c.vars...), gefVar{name, coq, ty})
+	if ty.k == "csvw" {
+		gefWriterNames[name] = true
+	}
+	return coq
+}
+
+// store translates lhs = val
+func (t *gefTr) store(lhs ast.Expr, val string, tv *gefT, c *gefCtx, pre *[]string) {
+	switch x := lhs.(type) {
+	case *ast.ParenExpr:
+		t.store(x.X, val, tv, c, pre)
+		return
+	case *ast.Ident:
+		if x.Name == "_" {
+			return
+		}
+		v, ok := c.lookup(x.Name)
+		if !ok {
+			t.fail(lhs, "store into something that is not a variable: %s", x.Name)
+			return
+		}
+		if tv.k == "ptr" && tv.el.k == "struct" {
+			t.fail(lhs, "a struct pointer is copied: %s", t.src(lhs))
+		}
+		*pre = append(*pre, fmt.Sprintf("let %s := %s in", v.coq, t.coerce(lhs, val, tv, v.ty)))
+		return
+	case *ast.SelectorExpr:
+		s, ty := t.expr(x.X, *c, pre)
+		if ty.k == "struct" {
+			st := gefStructTab[ty.sname]
+			if fty, ok := st.field(x.Sel.Name); ok {
+				t.store(x.X, fmt.Sprintf("(gef_%s_set_%s %s %s)", st.name, x.Sel.Name, s, t.coerce(lhs, val, tv, fty)), ty, c, pre)
+				return
+			}
+		}
+	case *ast.IndexExpr:
+		s, ty := t.expr(x.X, *c, pre)
+		if ty.k == "map" {
+			k, tk := t.expr(x.Index, *c, pre)
+			if tk.k == "string" {
+				t.store(x.X, fmt.Sprintf("(gef_map_set %s %s %s)", s, k, t.coerce(lhs, val, tv, ty.el)), ty, c, pre)
+				return
+			}
+		}
+		if ty.k == "slice" {
+			i, ti := t.expr(x.Index, *c, pre)
+			if ti.isNum() {
+				v := t.tmp()
+				*pre = append(*pre, fmt.Sprintf("do %s <- gef_update %s %s %s;", v, s, i, t.coerce(lhs, val, tv, ty.el)))
+				t.store(x.X, v, ty, c, pre)
+				return
+			}
+		}
+	}
+	t.fail(lhs, "store outside the scheme: %s", t.src(lhs))
+}
+
+// bind gives the value (text, type) to the left-hand side of := or =
+func (t *gefTr) bind(st *ast.AssignStmt, lhs ast.Expr, val string, tv *gefT, c *gefCtx, pre *[]string) {
+	if st.Tok == token.DEFINE {
+		id, ok := lhs.(*ast.Ident)
+		if !ok {
+			t.fail(st, "declaration of something that is not an identifier")
+			return
+		}
+		if id.Name == "_" {
+			return
+		}
+		if v, ok := c.inScope(id.Name); ok { // redeclared in the same block: an assignment
+			*pre = append(*pre, fmt.Sprintf("let %s := %s in", v.coq, t.coerce(lhs, val, tv, v.ty)))
+			return
+		}
+		ty := tv
+		switch tv.k {
+		case "const":
+			ty = gefK("int")
+		case "nil", "bad":
+			if tv.k == "nil" {
+				t.fail(st, "declaration from nil")
+			}
+			return
+		}
+		name := t.declare(st, c, id.Name, ty)
+		*pre = append(*pre, fmt.Sprintf("let %s := %s in", name, val))
+		return
+	}
+	t.store(lhs, val, tv, c, pre)
+}
+
+// simple translates a statement without control flow into lines that end in "in" or ";"
+func (t *gefTr) simple(st ast.Stmt, c *gefCtx) ([]string, bool) {
+	var pre []string
+	switch x := st.(type) {
+	case *ast.ExprStmt:
+		ce, ok := x.X.(*ast.CallExpr)
+		if !ok {
+			return nil, false
+		}
+		t.call(ce, *c, &pre, true)
+		return pre, true
+	case *ast.IncDecStmt:
+		s, ty := t.expr(x.X, *c, &pre)
+		if ty.k != "int" {
+			t.fail(st, "++ / -- on something that is not an int")
+		}
+		op := "+"
+		if x.Tok == token.DEC {
+			op = "-"
+		}
+		t.store(x.X, fmt.Sprintf("(%s %s 1)", s, op), ty, c, &pre)
+		return pre, true
+	case *ast.DeclStmt:
+		gd, ok := x.Decl.(*ast.GenDecl)
+		if !ok || gd.Tok != token.VAR {
+			return nil, false
+		}
+		for _, sp := range gd.Specs {
+			vs := sp.(*ast.ValueSpec)
+			if vs.Type == nil || len(vs.Values) != 0 {
+				t.fail(st, "var declaration outside the scheme")
+				continue
+			}
+			ty := t.resolve(vs.Type)
+			z, ok := ty.zero()
+			if !ok {
+				t.fail(st, "no zero value for %s", ty.name())
+			}
+			for _, id := range vs.Names {
+				name := t.declare(st, c, id.Name, ty)
+				pre = append(pre, fmt.Sprintf("let %s := (%s : %s) in", name, z, ty.coq()))
+			}
+		}
+		return pre, true
+	case *ast.AssignStmt:
+		if x.Tok != token.DEFINE && x.Tok != token.ASSIGN {
+			t.fail(st, "assignment operator outside the scheme")
+			return pre, true
+		}
+		if len(x.Rhs) == 1 {
+			switch r := x.Rhs[0].(type) {
+			case *ast.CallExpr:
+				if id, ok := r.Fun.(*ast.Ident); ok && id.Name == "append" {
+					if _, isVar := c.lookup("append"); !isVar {
+						if len(x.Lhs) != 1 || len(r.Args) != 2 || x.Tok != token.ASSIGN || t.src(x.Lhs[0]) != t.src(r.Args[0]) {
+							t.fail(st, "append outside the form X = append(X, e)")
+							return pre, true
+						}
+						s, ty := t.expr(r.Args[0], *c, &pre)
+						e, te := t.expr(r.Args[1], *c, &pre)
+						if ty.k == "string" {
+							if r.Ellipsis.IsValid() {
+								t.store(x.Lhs[0], fmt.Sprintf("(%s ++ %s)", s, t.coerce(r.Args[1], e, te, ty)), ty, c, &pre)
+							} else {
+								t.store(x.Lhs[0], fmt.Sprintf("(%s ++ [%s])", s, t.coerce(r.Args[1], e, te, gefK("byte"))), ty, c, &pre)
+							}
+							return pre, true
+						}
+						if ty.k != "slice" {
+							t.fail(st, "append to something that is not a slice")
+							return pre, true
+						}
+						if r.Ellipsis.IsValid() {
+							t.store(x.Lhs[0], fmt.Sprintf("(%s ++ %s)", s, t.coerce(r.Args[1], e, te, ty)), ty, c, &pre)
+						} else {
+							t.store(x.Lhs[0], fmt.Sprintf("(%s ++ [%s])", s, t.coerce(r.Args[1], e, te, ty.el)), ty, c, &pre)
+						}
+						return pre, true
+					}
+				}
+				rs, tys := t.call(r, *c, &pre, true)
+				if len(rs) != len(x.Lhs) {
+					t.fail(st, "%d values for %d places", len(rs), len(x.Lhs))
+					return pre, true
+				}
+				for i := range rs {
+					t.bind(x, x.Lhs[i], rs[i], tys[i], c, &pre)
+				}
+				return pre, true
+			case *ast.IndexExpr:
+				if len(x.Lhs) == 2 {
+					m, tm := t.expr(r.X, *c, &pre)
+					k, tk := t.expr(r.Index, *c, &pre)
+					if tm.k != "map" || tk.k != "string" {
+						t.fail(st, "v, ok := x[k] on something that is not a map")
+						return pre, true
+					}
+					z, _ := tm.el.zero()
+					a, b := t.tmp(), t.tmp()
+					pre = append(pre, fmt.Sprintf("let '(%s, %s) := gef_map_get2 %s %s %s in", a, b, z, m, k))
+					t.bind(x, x.Lhs[0], a, tm.el, c, &pre)
+					t.bind(x, x.Lhs[1], b, gefK("bool"), c, &pre)
+					return pre, true
+				}
+			case *ast.TypeAssertExpr:
+				if len(x.Lhs) == 2 && r.Type != nil {
+					s, ts := t.expr(r.X, *c, &pre)
+					ty := t.resolve(r.Type)
+					if ts.k != "anycol" || ty.k != "struct" || ty.sname != "Column" {
+						t.fail(st, "type assertion outside the scheme: %s", t.src(r))
+						return pre, true
+					}
+					a, b := t.tmp(), t.tmp()
+					pre = append(pre, fmt.Sprintf("let '(%s, %s) := gef_as_Column %s in", a, b, s))
+					t.bind(x, x.Lhs[0], a, ty, c, &pre)
+					t.bind(x, x.Lhs[1], b, gefK("bool"), c, &pre)
+					return pre, true
+				}
+			}
+		}
+		if len(x.Lhs) != len(x.Rhs) {
+			t.fail(st, "assignment outside the scheme: %s", t.src(st))
+			return pre, true
+		}
+		var vals []string
+		var tys []*gefT
+		for _, r := range x.Rhs {
+			s, ty := t.expr(r, *c, &pre)
+			if len(x.Rhs) > 1 {
+				v := t.tmp()
+				pre = append(pre, fmt.Sprintf("let %s := %s in", v, s))
+				s = v
+			}
+			vals, tys = append(vals, s), append(tys, ty)
+		}
+		for i := range vals {
+			t.bind(x, x.Lhs[i], vals[i], tys[i], c, &pre)
+		}
+		return pre, true
+	}
+	return nil, false
+}
+
+// ------------------------------------------------------------------ control flow
+
+func gefJoin(lines []string, last string) string {
+	return strings.Join(append(append([]string{}, lines...), last), "\n")
+}
+
+// gefEscapes: a return anywhere inside, or a continue that belongs to an enclosing loop
+func gefEscapes(n ast.Node) bool {
+	found := false
+	var walk func(m ast.Node, inLoop bool)
+	walk = func(m ast.Node, inLoop bool) {
+		ast.Inspect(m, func(k ast.Node) bool {
+			if found || k == nil {
+				return false
+			}
+			switch s := k.(type) {
+			case *ast.ReturnStmt:
+				found = true
+			case *ast.BranchStmt:
+				if !inLoop {
+					found = true
+				}
+			case *ast.RangeStmt:
+				if k != m {
+					walk(s.Body, true)
+					return false
+				}
+			case *ast.ForStmt:
+				if k != m {
+					walk(s.Body, true)
+					return false
+				}
+			}
+			return !found
+		})
+	}
+	walk(n, false)
+	return found
+}
+
+func gefContainsReturn(n ast.Node) bool {
+	found := false
+	ast.Inspect(n, func(m ast.Node) bool {
+		if _, ok := m.(*ast.ReturnStmt); ok {
+			found = true
+		}
+		return !found
+	})
+	return found
+}
+
+func gefRestrict(outer gefCtx) gefCtx { return outer }
+
+// outVals: the final state of the io.Writer arguments; once a csv.Writer was laid over it, the writer underneath it
+func (t *gefTr) outVals(c gefCtx) []string {
+	var out []string
+	for _, o := range t.f.outs {
+		val := o.coq
+		for _, v := range gefFlatVars(c) {
+			if v.ty.k == "csvw" {
+				val = fmt.Sprintf("(csvw_underlying %s)", v.coq)
+			}
+		}
+		out = append(out, val)
+	}
+	return out
+}
+
+func (t *gefTr) ret(x *ast.ReturnStmt, c gefCtx) string {
+	var pre []string
+	var vals []string
+	if len(x.Results) != len(t.f.results) {
+		t.fail(x, "return with %d values (the function has %d results)", len(x.Results), len(t.f.results))
+		return "Panic"
+	}
+	plain := func(e ast.Expr) bool {
+		switch e.(type) {
+		case *ast.Ident, *ast.BasicLit:
+			return true
+		}
+		return false
+	}
+	for i, r := range x.Results {
+		var s string
+		var ty *gefT
+		others := true
+		for j, o := range x.Results {
+			if j != i && !plain(o) {
+				others = false
+			}
+		}
+		if ce, ok := r.(*ast.CallExpr); ok && t.src(ce.Fun) == "append" && len(x.Results) == 1 && len(ce.Args) == 2 {
+			// return append(X, e): the result is handed to the caller, X is not used again
+			a, ta := t.expr(ce.Args[0], c, &pre)
+			e, te := t.expr(ce.Args[1], c, &pre)
+			switch {
+			case ta.k == "string" && ce.Ellipsis.IsValid():
+				s, ty = fmt.Sprintf("(%s ++ %s)", a, t.coerce(ce.Args[1], e, te, ta)), ta
+			case ta.k == "string":
+				s, ty = fmt.Sprintf("(%s ++ [%s])", a, t.coerce(ce.Args[1], e, te, gefK("byte"))), ta
+			default:
+				t.fail(r, "append outside the scheme: %s", t.src(r))
+				return "Panic"
+			}
+		} else if ce, ok := r.(*ast.CallExpr); ok && others {
+			// the only value that is not a variable or a literal: a method storing into its receiver may stand here
+			rs, tys := t.call(ce, c, &pre, true)
+			if len(rs) != 1 {
+				t.fail(r, "a call with %d results as one returned value", len(rs))
+				return "Panic"
+			}
+			s, ty = rs[0], tys[0]
+		} else {
+			s, ty = t.expr(r, c, &pre)
+		}
+		vals = append(vals, t.coerce(r, s, ty, t.f.results[i]))
+	}
+	if t.f.mut {
+		vals = append(vals, t.f.recv.coq)
+	}
+	vals = append(vals, t.outVals(c)...)
+	return gefJoin(pre, "Ok "+gefTuple(vals))
+}
+
+func (t *gefTr) stmts(list []ast.Stmt, c gefCtx, k func(gefCtx) string) string {
+	if len(list) == 0 {
+		return k(c)
+	}
+	st, rest := list[0], list[1:]
+	cont := func(c2 gefCtx) string { return t.stmts(rest, c2, k) }
+	if lines, ok := t.simple(st, &c); ok {
+		return gefJoin(lines, cont(c))
+	}
+	switch x := st.(type) {
+	case *ast.ReturnStmt:
+		if len(rest) != 0 {
+			t.fail(st, "statements after return")
+		}
+		return t.ret(x, c)
+	case *ast.BranchStmt:
+		if x.Tok != token.CONTINUE || x.Label != nil || c.next == nil {
+			t.fail(st, "branch statement outside the scheme: %s", t.src(st))
+			return "Panic"
+		}
+		if len(rest) != 0 {
+			t.fail(st, "statements after continue")
+		}
+		return c.next(c)
+	case *ast.IfStmt:
+		return t.ifStmt(x, c, cont)
+	case *ast.RangeStmt:
+		return t.rangeStmt(x, c, cont)
+	case *ast.ForStmt:
+		return t.forStmt(x, c, cont)
+	case *ast.BlockStmt:
+		return t.stmts(x.List, gefOpen(c), func(c2 gefCtx) string { return cont(gefRestrict(c)) })
+	}
+	t.fail(st, "statement outside the scheme: %s", strings.SplitN(t.src(st), "\n", 2)[0])
+	return "Panic"
+}
+
+func gefElse(x *ast.IfStmt) ([]ast.Stmt, bool) {
+	switch e := x.Else.(type) {
+	case nil:
+		return nil, true
+	case *ast.BlockStmt:
+		return e.List, true
+	case *ast.IfStmt:
+		return []ast.Stmt{e}, true
+	}
+	return nil, false
+}
+
+func (t *gefTr) ifStmt(x *ast.IfStmt, c gefCtx, cont func(gefCtx) string) string {
+	els, ok := gefElse(x)
+	if !ok {
+		t.fail(x, "else outside the scheme")
+		return "Panic"
+	}
+	if t.nilNormalisation(x, c) {
+		return "(* " + gefCommentSafe(strings.Join(strings.Fields(t.src(x)), " ")) + ": nil and the empty slice are the same list *)\n" + cont(c)
+	}
+	ci := gefOpen(c)
+	var lines []string
+	if x.Init != nil {
+		l, ok := t.simple(x.Init, &ci)
+		if !ok {
+			t.fail(x, "init statement outside the scheme")
+			return "Panic"
+		}
+		lines = append(lines, l...)
+	}
+	cond, ty := t.expr(x.Cond, ci, &lines)
+	t.coerce(x.Cond, cond, ty, gefK("bool"))
+	if gefEscapes(x) {
+		memo, have := "", false
+		back := func(c2 gefCtx) string {
+			if !have {
+				memo, have = cont(gefRestrict(c)), true
+			}
+			return memo
+		}
+		// the init statement may have stored into outer variables: their Coq names are rebound by the lines above
+		a := t.stmts(x.Body.List, gefOpen(ci), back)
+		b := t.stmts(els, gefOpen(ci), back)
+		return gefJoin(lines, fmt.Sprintf("if %s then\n%s\nelse\n%s", cond, gefIndent(a), gefIndent(b)))
+	}
+	res := t.assigned(c, x.Body, x.Else)
+	inner := ci
+	inner.top = false
+	exit := func(c2 gefCtx) string { return "Ok " + gefTuple(gefCoqNames(res)) }
+	a := t.stmts(x.Body.List, gefOpen(inner), exit)
+	b := t.stmts(els, gefOpen(inner), exit)
+	line := fmt.Sprintf("do %s <- (\n  if %s then\n%s\n  else\n%s);", gefPat(gefCoqNames(res)), cond, gefIndent(gefIndent(a)), gefIndent(gefIndent(b)))
+	return gefJoin(lines, line+"\n"+cont(gefRestrict(c)))
+}
+
+// nilNormalisation recognises  if X == nil { X = make([]T, 0) }  for a slice variable X
+func (t *gefTr) nilNormalisation(x *ast.IfStmt, c gefCtx) bool {
+	if x.Init != nil || x.Else != nil || len(x.Body.List) != 1 {
+		return false
+	}
+	be, ok := x.Cond.(*ast.BinaryExpr)
+	if !ok || be.Op != token.EQL || t.src(be.Y) != "nil" {
+		return false
+	}
+	id, ok := be.X.(*ast.Ident)
+	if !ok {
+		return false
+	}
+	v, ok := c.lookup(id.Name)
+	if !ok || v.ty.k != "slice" {
+		return false
+	}
+	as, ok := x.Body.List[0].(*ast.AssignStmt)
+	if !ok || as.Tok != token.ASSIGN || len(as.Lhs) != 1 || len(as.Rhs) != 1 || t.src(as.Lhs[0]) != id.Name {
+		return false
+	}
+	ce, ok := as.Rhs[0].(*ast.CallExpr)
+	if !ok || t.src(ce.Fun) != "make" || len(ce.Args) != 2 || t.src(ce.Args[1]) != "0" {
+		return false
+	}
+	return gefResolveText(t.src(ce.Args[0])).same(v.ty)
+}
+
+// every variable of the context, latest declaration of each Go name
+func gefFlatVars(c gefCtx) []gefVar {
+	var out []gefVar
+	seen := map[string]bool{}
+	for i := len(c.vars) - 1; i >= 0; i-- {
+		v := c.vars[i]
+		if v.name == "{" || seen[v.name] {
+			continue
+		}
+		seen[v.name] = true
+		out = append([]gefVar{v}, out...)
+	}
+	return out
+}
+
+// loop emits the fixpoint for a loop over the list xs (element type el); keyStart "" = no position variable
+func (t *gefTr) loop(x ast.Stmt, body *ast.BlockStmt, c gefCtx, cont func(gefCtx) string, xs string, el string, keyGo, keyStart, valGo string, valTy *gefT) string {
+	bodyC := gefOpen(c)
+	bodyC.top = false
+	keyName, valName := "", "_"
+	if keyGo != "" && keyGo != "_" {
+		keyName = t.declare(x, &bodyC, keyGo, gefK("int"))
+	}
+	if valGo != "" && valGo != "_" {
+		valName = t.declare(x, &bodyC, valGo, valTy)
+	}
+	hasRet := gefContainsReturn(body)
+	res := t.assigned(c, body)
+	if hasRet && !c.top {
+		t.fail(x, "a loop with a return inside that is not at the top level of the function")
+	}
+	const hole = "@LOOPARGS@"
+	next := func(c2 gefCtx) string {
+		call := "loop l'"
+		if keyName != "" {
+			call += " (" + keyName + " + 1)"
+		}
+		return call + hole
+	}
+	bodyC.next = next
+	bodyText := t.stmts(body.List, bodyC, next)
+	var exit, rty string
+	if hasRet {
+		exit = cont(c)
+		rty = t.resultType()
+	} else {
+		exit = "Ok " + gefTuple(gefCoqNames(res))
+		rty = gefTypeTuple(gefCoqTypes(res))
+	}
+	var params []gefVar
+	isRes := map[string]bool{}
+	for _, v := range res {
+		isRes[v.coq] = true
+	}
+	for _, v := range gefFlatVars(c) {
+		if isRes[v.coq] || gefMentions(bodyText, v.coq) || gefMentions(exit, v.coq) {
+			params = append(params, v)
+		}
+	}
+	args, sig, tys := "", "", ""
+	for _, v := range params {
+		args += " " + v.coq
+		sig += fmt.Sprintf(" (%s : %s)", v.coq, v.ty.coq())
+		tys += v.ty.coq() + " -> "
+	}
+	bodyText = strings.ReplaceAll(bodyText, hole, args)
+	t.nloops++
+	name := fmt.Sprintf("%s_loop%d", t.f.coq, t.nloops)
+	keySig, keyTy, keyArg := "", "", ""
+	if keyName != "" {
+		keySig, keyTy, keyArg = " ("+keyName+" : Z)", "Z -> ", " "+keyStart
+	}
+	var b strings.Builder
+	fmt.Fprintf(&b, "Definition %s : list %s -> %s%soutcome %s :=\n", name, el, keyTy, tys, rty)
+	fmt.Fprintf(&b, "  fix loop (l : list %s)%s%s {struct l} : outcome %s :=\n", el, keySig, sig, rty)
+	fmt.Fprintf(&b, "  match l with\n  | [] =>\n%s\n  | %s :: l' =>\n%s\n  end.\n", gefIndent(gefIndent(exit)), valName, gefIndent(gefIndent(bodyText)))
+	t.loops = append(t.loops, b.String())
+	call := name + " " + xs + keyArg + args
+	if hasRet {
+		return call
+	}
+	return fmt.Sprintf("do %s <- %s;\n%s", gefPat(gefCoqNames(res)), call, cont(c))
+}
+
+func (t *gefTr) rangeStmt(x *ast.RangeStmt, c gefCtx, cont func(gefCtx) string) string {
+	if x.Tok != token.DEFINE {
+		t.fail(x, "range without :=")
+		return "Panic"
+	}
+	var pre []string
+	xs, tx := t.expr(x.X, c, &pre)
+	xs, tx = gefAsSlice(xs, tx)
+	if tx.k != "slice" {
+		t.fail(x, "range over something that is not a slice: %s", t.src(x.X))
+		return "Panic"
+	}
+	name := func(n ast.Expr) string {
+		if n == nil {
+			return ""
+		}
+		id, ok := n.(*ast.Ident)
+		if !ok {
+			t.fail(x, "range variable that is not an identifier")
+			return "_"
+		}
+		return id.Name
+	}
+	k, v := name(x.Key), name(x.Value)
+	if v != "" && v != "_" {
+		as, _ := gefAssignedNames(x.Body)
+		if r := gefRootIdent(x.X); r != "" && as[r] {
+			t.fail(x, "the body stores into the slice it ranges over by value")
+		}
+	}
+	as, _ := gefAssignedNames(x.Body)
+	if k != "" && as[k] || v != "" && as[v] {
+		t.fail(x, "the body stores into a range variable")
+	}
+	return gefJoin(pre, t.loop(x, x.Body, c, cont, xs, tx.el.coq(), k, "0", v, tx.el))
+}
+
+// forStmt: for i := a; i < b; i++ { body } with i and the variables of b not stored into by the body
+func (t *gefTr) forStmt(x *ast.ForStmt, c gefCtx, cont func(gefCtx) string) string {
+	init, ok1 := x.Init.(*ast.AssignStmt)
+	cond, ok2 := x.Cond.(*ast.BinaryExpr)
+	post, ok3 := x.Post.(*ast.IncDecStmt)
+	if !ok1 || !ok2 || !ok3 || init.Tok != token.DEFINE || len(init.Lhs) != 1 || len(init.Rhs) != 1 || cond.Op != token.LSS || post.Tok != token.INC {
+		t.fail(x, "for header outside the form  i := a; i < b; i++")
+		return "Panic"
+	}
+	id, ok := init.Lhs[0].(*ast.Ident)
+	if !ok || t.src(cond.X) != id.Name || t.src(post.X) != id.Name || id.Name == "_" {
+		t.fail(x, "for header outside the form  i := a; i < b; i++")
+		return "Panic"
+	}
+	var pre []string
+	a, ta := t.expr(init.Rhs[0], c, &pre)
+	b, tb := t.expr(cond.Y, c, &pre)
+	if !(ta.k == "int" || ta.k == "const") || tb.k != "int" {
+		t.fail(x, "for bounds that are not of type int")
+		return "Panic"
+	}
+	as, _ := gefAssignedNames(x.Body)
+	if as[id.Name] {
+		t.fail(x, "the body stores into the loop counter")
+	}
+	bad := false
+	ast.Inspect(cond.Y, func(m ast.Node) bool {
+		if i, ok := m.(*ast.Ident); ok && as[i.Name] {
+			bad = true
+		}
+		if ce, ok := m.(*ast.CallExpr); ok && t.src(ce.Fun) != "len" {
+			se, isSel := ce.Fun.(*ast.SelectorExpr)
+			if !isSel || len(ce.Args) != 0 || as[gefRootIdent(se.X)] {
+				bad = true
+			}
+		}
+		return true
+	})
+	if bad {
+		t.fail(x, "the body stores into a variable of the loop bound (or the bound is a call)")
+	}
+	return gefJoin(pre, t.loop(x, x.Body, c, cont, fmt.Sprintf("(gef_count %s %s)", a, b), "unit", id.Name, a, "", nil))
+}
+
+// ------------------------------------------------------------------ functions
+
+func (t *gefTr) resultType() string {
+	var parts []string
+	for _, r := range t.f.results {
+		parts = append(parts, r.coq())
+	}
+	if t.f.mut {
+		parts = append(parts, t.f.recv.ty.coq())
+	}
+	for _, o := range t.f.outs {
+		parts = append(parts, o.ty.coq())
+	}
+	return gefTypeTuple(parts)
+}
+
+func gefCoqName(fn string) string { return "gef_" + strings.ReplaceAll(fn, ".", "_") }
+
+func gefSignature(p *pkgInfo, f *gefFunc) bool {
+	t := &gefTr{p: p, f: f}
+	fd := f.fd
+	if fd.Recv != nil {
+		if len(fd.Recv.List) != 1 || len(fd.Recv.List[0].Names) != 1 {
+			t.fail(fd, "receiver outside the scheme")
+			return false
+		}
+		ty := t.resolve(fd.Recv.List[0].Type)
+		name := fd.Recv.List[0].Names[0].Name
+		isPtr := false
+		if ty.k == "ptr" && ty.el.k == "struct" {
+			ty, isPtr = ty.el, true
+		}
+		if ty.k != "struct" {
+			t.fail(fd, "receiver that is not a struct or a pointer to one")
+			return false
+		}
+		f.recv = &gefVar{name, "v_" + name, ty}
+		as, decl := gefAssignedNames(fd.Body)
+		if as[name] {
+			if decl[name] {
+				t.fail(fd, "the receiver is shadowed and stored into")
+			}
+			if !isPtr {
+				t.fail(fd, "a value receiver is stored into")
+			}
+			f.mut = true
+		}
+	}
+	for _, fl := range fd.Type.Params.List {
+		var ty *gefT
+		if ell, isEll := fl.Type.(*ast.Ellipsis); isEll {
+			if t.src(ell.Elt) != "csv.ToConfigFunc" {
+				t.fail(fd, "variadic argument outside the scheme")
+				return false
+			}
+			ty = gefK("conffuncs")
+		} else {
+			ty = t.resolve(fl.Type)
+		}
+		for _, n := range fl.Names {
+			f.params = append(f.params, gefVar{n.Name, "v_" + n.Name, ty})
+			if ty.k == "writer" {
+				f.outs = append(f.outs, gefVar{n.Name, "v_" + n.Name, ty})
+			}
+		}
+		if len(fl.Names) == 0 {
+			t.fail(fd, "parameter without name")
+		}
+	}
+	if fd.Type.Results != nil {
+		for _, fl := range fd.Type.Results.List {
+			if len(fl.Names) != 0 {
+				t.fail(fd, "named result")
+			}
+			f.results = append(f.results, t.resolve(fl.Type))
+		}
+	}
+	return !t.bad
+}
+
+func gefSource(p *pkgInfo, fd *ast.FuncDecl) string {
+	cp := *fd
+	cp.Doc = nil
+	return gefCommentSafe(gefSrc(p.fset, &cp))
+}
+
+func gefTranslate(p *pkgInfo, f *gefFunc) {
+	t := &gefTr{p: p, f: f}
+	gefWriterNames = map[string]bool{}
+	for _, o := range f.outs {
+		gefWriterNames[o.name] = true
+	}
+	c := gefCtx{top: true}
+	var sig []string
+	if f.recv != nil {
+		c.vars = append(c.vars, *f.recv)
+		sig = append(sig, fmt.Sprintf("(%s : %s)", f.recv.coq, f.recv.ty.coq()))
+	}
+	for _, v := range f.params {
+		if v.name == "_" {
+			sig = append(sig, fmt.Sprintf("(_ : %s)", v.ty.coq()))
+			continue
+		}
+		c.vars = append(c.vars, v)
+		sig = append(sig, fmt.Sprintf("(%s : %s)", v.coq, v.ty.coq()))
+	}
+	body := t.stmts(f.fd.Body.List, gefOpen(c), func(c2 gefCtx) string {
+		if len(f.results) != 0 {
+			t.fail(f.fd, "the function can fall off its end")
+			return "Panic"
+		}
+		var vals []string
+		if f.mut {
+			vals = append(vals, f.recv.coq)
+		}
+		vals = append(vals, t.outVals(c2)...)
+		return "Ok " + gefTuple(vals)
+	})
+	var b strings.Builder
+	fmt.Fprintf(&b, "(* %s\n%s *)\n", f.pkg, gefSource(p, f.fd))
+	for _, l := range t.loops {
+		b.WriteString(l)
+	}
+	sep := " "
+	if len(sig) == 0 {
+		sep = ""
+	}
+	fmt.Fprintf(&b, "Definition %s%s%s : outcome %s :=\n%s.\n", f.coq, sep, strings.Join(sig, " "), t.resultType(), gefIndent(body))
+	f.text = b.String()
+	f.ok = !t.bad
+}
+
+func genEnumFac() string {
+	gefFuncs = map[string]*gefFunc{}
+	p := loadPkg(gefPkg)
+	gefGroup = "ecolumn"
+	gefStructTab = nil
+	gefLoadStructs(p, gefStructs, gefPkg)
+	golden := ""
+	if fl := flag.Lookup("golden"); fl != nil && fl.Value.String() != "" {
+		if gb, err := os.ReadFile(filepath.Join(fl.Value.String(), "GenEnumFac.v")); err == nil {
+			golden = string(gb)
+		}
+	}
+	var b strings.Builder
+	b.WriteString(gefPreamble1)
+	block := func(name, text string, ok bool) {
+		if !ok {
+			old, found := gefGoldenBlock(golden, name)
+			if !found {
+				return
+			}
+			text = "(* FALLBACK " + name + ": not derivable from the current source; text of the last validated tree *)\n" + old
+		}
+		fmt.Fprintf(&b, "(* BEGIN %s *)\n%s(* END %s *)\n\n", name, text, name)
+	}
+	for _, n := range gefStructs {
+		if s, ok := gefStructTab[n]; ok {
+			block("gef_"+n, s.record(), s.ok)
+		} else {
+			block("gef_"+n, "", false)
+		}
+	}
+	b.WriteString(gefPreamble2)
+	// the vocabulary: enumVal.isNull is used in its GenFuncs translation
+	if fd, ok := p.funcs["enumVal.isNull"]; !ok || fd.Body == nil {
+		problem("enum factory translation: enumVal.isNull not found in %s", gefPkg)
+	}
+	run := func(p *pkgInfo, fn, pkgName, group string) {
+		gefGroup = group
+		f := &gefFunc{fn: fn, coq: gefCoqName(fn), pkg: pkgName, group: group}
+		gefFuncs[fn] = f
+		fd, ok := p.funcs[fn]
+		if !ok || fd.Body == nil {
+			problem("enum factory translation: function %s not found in %s", fn, pkgName)
+		} else {
+			f.fd = fd
+			if gefSignature(p, f) {
+				gefTranslate(p, f)
+			}
+		}
+		f.done = true
+		if !f.ok && f.text != "" {
+			f.text = ""
+		}
+		block(f.coq, f.text, f.ok)
+		if !f.ok {
+			// callers still see the golden text: mark the function as present when a fallback exists
+			if _, found := gefGoldenBlock(golden, f.coq); found {
+				f.text = "fallback"
+			}
+		}
+	}
+	for _, fn := range gefSpecs {
+		run(p, fn, gefPkg, "ecolumn")
+	}
+	// the JSON rendering of an enum cell, with the string escaper as the abstraction boundary
+	if fd, ok := loadPkg("internal/strings").funcs["AppendQuotedString"]; !ok || fd.Body == nil {
+		problem("enum factory translation: AppendQuotedString not found in internal/strings")
+	}
+	b.WriteString(gekPreamble)
+	for _, fn := range gekSpecs {
+		run(p, fn, gefPkg, "ecolumnR")
+	}
+	b.WriteString("End GenEnumRender.\n\n")
+	// the second group
+	root := loadPkg(gejPkg)
+	gefGroup = "qframe"
+	gefLoadStructs(root, gejStructs, "qframe")
+	found := false
+	for _, f := range root.files {
+		for _, d := range f.Decls {
+			if gd, ok := d.(*ast.GenDecl); ok && gd.Tok == token.TYPE {
+				for _, sp := range gd.Specs {
+					ts := sp.(*ast.TypeSpec)
+					if ts.Name.Name == "namedColumn" {
+						found = true
+						if gefSrc(root.fset, ts.Type) != gejNamedColumn {
+							problem("enum factory translation: type namedColumn is not the text the fixed vocabulary of the translation stands for")
+						}
+					}
+				}
+			}
+		}
+	}
+	if !found {
+		problem("enum factory translation: type namedColumn not found")
+	}
+	if fd, ok := loadPkg("internal/strings").funcs["QuotedBytes"]; !ok || fd.Body == nil {
+		problem("enum factory translation: QuotedBytes not found in internal/strings")
+	}
+	b.WriteString(gejPreamble)
+	for _, n := range gejStructs {
+		if s, ok := gefStructTab[n]; ok {
+			block("gef_"+n, s.record(), s.ok)
+		} else {
+			block("gef_"+n, "", false)
+		}
+	}
+	for _, fn := range gejSpecs {
+		run(root, fn, "qframe", "qframe")
+	}
+	b.WriteString("End GenSerializers.\n")
+	for _, n := range gejStructs {
+		if s, ok := gefStructTab[n]; ok {
+			fmt.Fprintf(&b, "Arguments gef_mk_%s {C}.\n", n)
+			for _, f := range s.fields {
+				fmt.Fprintf(&b, "Arguments gef_%s_%s {C}.\n", n, f.name)
+			}
+		}
+	}
+	return b.String()
+}
